@@ -74,13 +74,15 @@ impl<T> SharedFd<T> {
 
     /// Wait and take the inner owned fd.
     pub fn take(self) -> impl Future<Output = Option<T>> {
-        let inner = self.into_inner();
-
+        // The future keeps the reference as a `SharedFd` whenever it is not being
+        // polled, so that letting go of it (another future is already waiting, or
+        // this future is dropped) runs `Drop for SharedFd` and wakes the waiting
+        // future if this was the last other reference.
         async move {
-            if !inner.waits.swap(true, Ordering::AcqRel) {
-                let mut inner = Some(inner);
+            if !self.0.waits.swap(true, Ordering::AcqRel) {
+                let mut inner = Some(self);
                 poll_fn(move |cx| {
-                    let i = inner.take().unwrap();
+                    let i = inner.take().unwrap().into_inner();
                     let this = match Shared::try_unwrap(i) {
                         Ok(fd) => return Poll::Ready(Some(fd.fd)),
                         Err(this) => this,
@@ -91,7 +93,7 @@ impl<T> SharedFd<T> {
                     match Shared::try_unwrap(this) {
                         Ok(fd) => Poll::Ready(Some(fd.fd)),
                         Err(tt) => {
-                            inner = Some(tt);
+                            inner = Some(Self(tt));
                             Poll::Pending
                         }
                     }
